@@ -78,6 +78,14 @@ theorem finalPts_length (p : List V3) (ops : List HOp) : (finalPts p ops).length
   unfold finalPts
   induction ops generalizing p with
   | nil => rfl
-  | cons o os ih => cases o <;> simp [List.foldl_cons, stepPts, ih]
+  | cons o os ih =>
+    cases o with
+    | read => simp [List.foldl_cons, stepPts, ih]
+    | update i v => simp [List.foldl_cons, stepPts, ih]
+    | setAll q =>
+      simp only [List.foldl_cons, stepPts]
+      split
+      · rename_i h; rw [ih]; exact h
+      · exact ih p
 
 end CBV.C14
